@@ -82,7 +82,7 @@ PROPS = {
         technique="Lean 4 proof (induction over the traversal loop, case analysis per mutator) + model/implementation correspondence",
         design_ref="DESIGN.md §6 C17"),
     "C05": dict(vec_prop(["EyeballVerif.Props.C05", "EyeballVerif.Props.StreamReach", "EyeballVerif.Props.StreamStep", "EyeballVerif.Lemmas.StepInv"],
-        "c05_replay_inv (at every reachable state — any capacity, any finite sequence of updates, traversals, transactions, subscriptions, drops and polls — every live receiver's replica is defined and replaying what the channel still owes it yields the current contents), c05_delivered_applicable, c05_caught_up_equal, c05_never_panics; c05_exec_faithful: for every mutator and contents, the recorded diff replayed strictly on the contents before gives the contents after; no diff only if nothing changed; every diff is validOn the contents. Fine-grained (Props/StreamStep, Lemmas/StepInv): the same at the granularity of single receive operations — poll_next is a sequence of recv()/try_recv() operations between which the writer (another thread) may publish, commit or be dropped; the invariant SInv (VInv with the replica following the cursor + one clause per phase: drain / inside handle_lag) is preserved by every receive operation (sinv_micro) and every other event (sinv_ev, via the extension relation Ext), hence along every interleaving (sinv_run); micro_return: what poll_next hands out when it returns; c05s_never_panics (the unreachable! of handle_lag too), c05s_delivered_applicable", engines=[{"name": "vec"}, {"name": "vstep"}, {"name": "vconc"}]),
+        "c05_replay_inv (at every reachable state — any capacity, any finite sequence of updates, traversals, transactions, subscriptions, drops and polls — every live receiver's replica is defined and replaying what the channel still owes it yields the current contents), c05_delivered_applicable, c05_caught_up_equal, c05_never_panics; c05_exec_faithful: for every mutator and contents, the recorded diff replayed strictly on the contents before gives the contents after; no diff only if nothing changed; every diff is validOn the contents. Fine-grained (Props/StreamStep, Lemmas/StepInv): the same at the granularity of single receive operations — poll_next is a sequence of recv()/try_recv() operations between which the writer (another thread) may publish, commit or be dropped; the invariant StInv (VInv with the replica following the cursor + one clause per phase: drain / inside handle_lag) is preserved by every receive operation (sinv_micro) and every other event (sinv_ev, via the extension relation Ext), hence along every interleaving (sinv_run); micro_return: what poll_next hands out when it returns; c05s_never_panics (the unreachable! of handle_lag too), c05s_delivered_applicable", engines=[{"name": "vec"}, {"name": "vstep"}, {"name": "vconc"}]),
         claim=("Lean 4 theorems: stream invariant VInv preserved by every event (vinv_vstep) hence c05_replay_inv at every reachable state: every delivered diff was applicable to the subscriber's replica, and replica + still-owed diffs = current contents; c05_exec_faithful (every call's diff, replayed strictly on the state before, yields the state after; documented no-ops record nothing; exactly one diff otherwise) "
                "plus the receiver-level theorems shared with C06/C08; tied to the code by the vec engine, whose implementation-side oracle replays every delivered diff on a strict replica "
                "and compares it with the vector after every message, for plain and batched streams."),
@@ -96,9 +96,9 @@ PROPS = {
                "(c06_batched_consumes_all). Tied to the code by lag scenarios over capacities 1..8 (exhaustive in the number of unpolled updates) and random histories."),
         technique="Lean 4 proof (induction over the drain loops of handle_lag / batched poll) + model/implementation correspondence",
         design_ref="DESIGN.md §6 C06"),
-    "C07": dict(vec_prop(["EyeballVerif.Props.C07"],
+    "C07": dict(vec_prop(["EyeballVerif.Props.C07", "EyeballVerif.Props.StreamStep"],
         "c07_abandon: for every list of transaction events (mutators incl. clear, traversals, rollbacks, panicking calls) dropping the transaction restores the exact pre-state "
-        "(contents, log, receivers); c07_inv_run: batch replayed on the pre-state = working copy along every body; c07_commit / c07_commit_replay", engines=[{"name": "vec"}, {"name": "vstep"}]),
+        "(contents, log, receivers); c07_inv_run: batch replayed on the pre-state = working copy along every body; c07_commit / c07_commit_replay; under any interleaving with a reader on another thread: c13s_batch_whole_messages (Props/StreamStep) — a batch handed to a batched subscriber is the concatenation of the diffs of consecutive whole messages, and a commit is one message, so no state inside a transaction is observable", engines=[{"name": "vec"}, {"name": "vstep"}]),
         claim=("Lean 4 theorems: abandoning a transaction after any sequence of transaction events leaves contents, channel log and receivers exactly as before (c07_abandon); the transaction "
                "invariant 'recorded batch replayed on the untouched contents = working copy' holds along every body incl. clear and entry traversals (c07_inv_run); commit installs the working "
                "copy, publishes nothing for an empty batch and otherwise exactly one message carrying the whole batch (c07_commit, c07_commit_replay). Tied to the code by exhaustive transaction bodies."),
@@ -166,9 +166,9 @@ PROPS.update({
                "random chains of up to 3 stages with transparent taps between the stages checked at every quiescent point."),
         technique="Lean 4 proof (induction over the chain, per-stage refinement theorems) + model/implementation correspondence with per-stage taps",
         design_ref="DESIGN.md §6 C12"),
-    "C13": dict(adp_prop(["EyeballVerif.Props.C13", "EyeballVerif.Props.C13Flat", "EyeballVerif.Props.PipeSoundU", "EyeballVerif.Lemmas.PipeBasics"],
+    "C13": dict(adp_prop(["EyeballVerif.Props.C13", "EyeballVerif.Props.C13Flat", "EyeballVerif.Props.PipeSoundU", "EyeballVerif.Lemmas.PipeBasics", "EyeballVerif.Props.StreamStep"],
         "c13_no_empty_batch: for chains of any length, any fuel and world, polling never yields an empty batch given the vector never publishes an empty message (pollStages_item principle, induction over "
-        "the poll loop); c13_mapDiffs_append / c13_mapDiffs_acc: the Vec container's flat_map over a batch = handling its diffs one after the other", engines=[{"name": "adp"}, {"name": "vconc"}]),
+        "the poll loop); c13_mapDiffs_append / c13_mapDiffs_acc: the Vec container's flat_map over a batch = handling its diffs one after the other", engines=[{"name": "adp"}, {"name": "vstep"}, {"name": "vconc"}]),
         claim=("Lean 4 theorems: no stage, alone or in a chain of any length, ever emits an empty batch (c13_no_empty_batch, by induction over the poll loop of the generic stage skeleton, using that commits "
                "never publish empty messages); handling a batch in one go produces exactly the concatenation, in order, of handling its diffs one at a time, with the same buffered state "
                "(c13_mapDiffs_append, c13_mapDiffs_acc) — the algebraic core of 'batched = unbatched, concatenated'. Tied to the code by running every exhaustive case in both flavours and comparing the "
@@ -315,7 +315,7 @@ ENGINES = [
      "kind_free_text": "differential correspondence (real VectorDiff vs Lean model) + implementation-side oracle"},
     {"name": "vec", "path": "harness/src/eng_vec.rs", "serves_properties": ["C05", "C06", "C07", "C08", "C17"],
      "kind_free_text": "differential correspondence (real ObservableVector/subscriber streams vs Lean model OV) + implementation-side oracles (strict replica, plain-vector reference, pending-message ledger, wake flags)"},
-    {"name": "vstep", "path": "harness/src/eng_vstep.rs", "serves_properties": ["C05", "C06", "C07", "C08"],
+    {"name": "vstep", "path": "harness/src/eng_vstep.rs", "serves_properties": ["C05", "C06", "C07", "C08", "C13"],
      "kind_free_text": "differential correspondence at the granularity of single receive operations: the verification hook eyeball_im::verif::set_recv_hook is called after every recv()/try_recv() of a poll_next, the harness performs updates, whole transactions and the drop of the vector from inside it (the interleavings a writer on another thread produces, but deterministic and recorded), the Lean model SOV.micro replays them step by step; + implementation-side oracles (strict applicability, Reset = contents at the last receive operation, Pending only in sync, End only after the drop on the final contents, wake rule)"},
     {"name": "vconc", "path": "harness/src/eng_vconc.rs", "serves_properties": ["C05", "C06", "C08", "C09", "C13"],
      "kind_free_text": "writer on its own thread against plain and batched subscriber streams and a batched skip(1) adapter polled on three other threads (a poll is no longer atomic w.r.t. updates: the Lagged arms inside the drain loops); implementation-side oracles only (strict applicability, replica = final contents, End iff dropped) — the interleaving is not recorded, so there is no model trace"},
